@@ -240,6 +240,7 @@ pub fn run(ctx: &Ctx, rep: &mut Report) {
     }
     super::c04::corner_sampler(ctx, rep, PID, 10, &mut r, 20_000, 400_000);
     super::c14::wrap_probe(ctx, rep, PID, crate::gen::pm(&[10]), &mut r);
+    super::c14::giant_buffer_probe(ctx, rep, PID, crate::gen::pm(&[10]), &mut r);
     rep.sample(3, || {
         let mut o = J::obj();
         o.set("case", J::s("type 1 longitude raw 0x8000000 (most negative 28-bit value)"));
